@@ -125,13 +125,14 @@ func scenBlock(rng *rand.Rand, tr *sim.Trace, seg int, events int) {
 			}
 			h.in(src, q)
 			h.settle()
-		case 4, 5: // own query; maybe answered
-			c := h.call(src, "ping", dht.QueryInput{})
+		case 4, 5: // own query of any method (a passive node marks every one of them read-only); maybe answered
+			ownM := []string{"ping", "ping", "find_node", "get_peers", "announce_peer", "put", "get"}[rng.Intn(7)]
+			c := h.call(src, ownM, dht.QueryInput{})
 			time.Sleep(300 * time.Microsecond)
 			var myT []byte
 			if !h.dropped(src) {
 				// other queries may be on the wire (table maintenance): find the one to this destination
-				if myT = h.waitQueryTo(src, 30*time.Second); myT == nil {
+				if myT = h.waitQueryTo(src, 30*time.Second, ownM); myT == nil {
 					fail("own query to %v never written", src)
 				}
 			}
@@ -230,7 +231,14 @@ func scenBlock(rng *rand.Rand, tr *sim.Trace, seg int, events int) {
 					st, _ := h.srv.Bootstrap()
 					tried = st.NumAddrsTried
 				} else {
-					a, err := h.srv.AnnounceTraversal(randID(rng))
+					var a *dht.Announce
+					var err error
+					if kind == 1 && rng.Intn(2) == 0 {
+						// the complete announce: announce_peer with the tokens the simulated contacts handed out
+						a, err = h.srv.Announce(randID(rng), 1+rng.Intn(65535), rng.Intn(2) == 0)
+					} else {
+						a, err = h.srv.AnnounceTraversal(randID(rng))
+					}
 					if err == nil {
 						for range a.Peers {
 						}
@@ -678,7 +686,11 @@ func (h *H) keepQuiet() { h.flush(false) }
 
 // waitQueryTo waits for a ping query written to dst and returns its transaction ID (the datagram stays
 // captured for the next flush).
-func (h *H) waitQueryTo(dst *net.UDPAddr, d time.Duration) []byte {
+func (h *H) waitQueryTo(dst *net.UDPAddr, d time.Duration, method ...string) []byte {
+	want := "ping"
+	if len(method) > 0 {
+		want = method[0]
+	}
 	deadline := time.Now().Add(d)
 	for time.Now().Before(deadline) {
 		var found []byte
@@ -688,7 +700,7 @@ func (h *H) waitQueryTo(dst *net.UDPAddr, d time.Duration) []byte {
 			}
 			if dd, err := sim.DecodeDict(of.B); err == nil {
 				if y, _ := dd.Str("y"); string(y) == "q" {
-					if q, _ := dd.Str("q"); string(q) == "ping" {
+					if q, _ := dd.Str("q"); string(q) == want {
 						found, _ = dd.Str("t")
 					}
 				}
